@@ -5,6 +5,8 @@ From Coq Require Import List String NArith ZArith Bool Lia.
 From Piko Require Import Base.Maps Base.Strs Gossip.Types Gossip.Local Gossip.Apply Gossip.Codec.
 From Piko Require Import Gossip.World GossipP.SortP GossipP.LocalP GossipP.Valid GossipP.ApplyValid GossipP.CodecP GossipP.ConvergeP
      GossipP.MemberP GossipP.WorldInv GossipP.WorldConv GossipP.WorldRounds GossipP.RoundsExample.
+From Coq Require Import Permutation.
+From Piko Require Import Gossip.Round GossipP.RoundP.
 Import ListNotations.
 Open Scope string_scope. Open Scope list_scope. Open Scope N_scope.
 
@@ -153,6 +155,39 @@ Qed.
    for arbitrary interleavings only C03_world_no_regress is proved: nothing learned is ever lost). The convergence
    campaigns on the real nodes exercise exactly these schedules on every run. *)
 
+(* "if the live nodes keep exchanging gossip": who a running node exchanges with. A gossip round (gossip.go gossipRound)
+   sends its digest to one peer drawn from the live peers and to one drawn from the unreachable peers (Gossip/Round.v; Go's
+   map order and random numbers are oracles). For EVERY order in which Go lists the peers: every live peer is the target
+   for a whole residue class of the random number, so a sequence of rounds whose random numbers hit every residue - in
+   particular every sequence produced by a generator that does - contacts every live peer (and every unreachable one);
+   and whatever the numbers are, what a round sends is a legal observation of the model (the harness compares the
+   destinations of real rounds with it). [partial: that math/rand hits every residue is not proved] *)
+Theorem C03_round_reaches_every_live_peer :
+  forall lives unreach p, In p lives ->
+  exists i, (i < List.length lives)%nat /\
+  forall r1 r2, Nat.modulo r1 (List.length lives) = i -> In p (round_targets lives unreach r1 r2).
+Proof. exact round_reaches_live. Qed.
+
+Theorem C03_rounds_cover :
+  forall lives unreach (rs : list (nat * nat)),
+  (forall i, (i < List.length lives)%nat -> exists r, In r rs /\ Nat.modulo (fst r) (List.length lives) = i) ->
+  (forall i, (i < List.length unreach)%nat -> exists r, In r rs /\ Nat.modulo (snd r) (List.length unreach) = i) ->
+  forall p, In p lives \/ In p unreach -> exists r, In r rs /\ In p (round_targets lives unreach (fst r) (snd r)).
+Proof. exact rounds_cover. Qed.
+
+Theorem C03_round_targets_legal :
+  forall c lives unreach r1 r2,
+  Permutation lives (live_peers c) -> Permutation unreach (unreach_peers c) ->
+  round_legal c (map n_addr (round_targets lives unreach r1 r2)) = true.
+Proof. exact round_targets_legal. Qed.
+
+Example C03_ex_round :
+  map n_id (live_peers ex_round_state) = ["b"; "e"] /\ map n_id (unreach_peers ex_round_state) = ["c"; "f"] /\
+  map n_id (round_targets (live_peers ex_round_state) (unreach_peers ex_round_state) 7 4) = ["e"; "c"] /\
+  round_legal ex_round_state ["E:1"; "C:1"] = true /\ round_legal ex_round_state ["D:1"; "C:1"] = false /\
+  round_legal ex_round_state ["B:1"] = false.
+Proof. exact ex_round_rounds. Qed.
+
 Print Assumptions C03_no_regress.
 Print Assumptions C03_progress.
 Print Assumptions C03_nonempty_when_fits.
@@ -166,3 +201,7 @@ Print Assumptions C03_pull_makes_progress.
 Print Assumptions C03_rounds_converge.
 Print Assumptions C03_converged_views.
 Print Assumptions C03_rounds_example.
+Print Assumptions C03_round_reaches_every_live_peer.
+Print Assumptions C03_rounds_cover.
+Print Assumptions C03_round_targets_legal.
+Print Assumptions C03_ex_round.
